@@ -62,4 +62,85 @@ theorem spliceSum_plus_num (acc d : Doc) :
       all_goals simp [spliceSum]
   | _ => simp [spliceSum]
 
+/-- a well-grouped term (product spine) that starts with a minus: dropping the minus negates the value -/
+theorem peelProd_num (d : Doc) : PyOK d = true → 50 ≤ level d → startsMinus d = true →
+    (evD S (peelLeft d)).num = -(evD S d).num := by
+  induction d with
+  | neg x _ => intro _ _ _; simp [peelLeft]
+  | bin op a b iha _ =>
+      intro hp hl hs
+      simp only [startsMinus] at hs
+      cases op
+      case mul =>
+        simp only [ok_mul, Bool.and_eq_true, decide_eq_true_eq] at hp
+        simp only [peelLeft, evD_mul_num, iha hp.1.1.1 hp.1.2 hs]; ring
+      case div =>
+        simp only [ok_div, Bool.and_eq_true, decide_eq_true_eq] at hp
+        simp only [peelLeft, evD_div_num, iha hp.1.1.1 hp.1.2 hs]; ring
+      case pow =>
+        exfalso
+        simp only [ok_pow, Bool.and_eq_true, decide_eq_true_eq] at hp
+        have h100 := hp.1.2
+        cases a <;> simp [startsMinus] at hs h100
+        rename_i op _ _; cases op <;> simp at h100
+      all_goals simp at hl
+  | _ => intro _ hl hs; first | (simp at hl; done) | (simp [startsMinus] at hs; done)
+
+theorem spliceSum_tight (acc x : Doc) (m : Bool) (h : 50 ≤ level x) :
+    spliceSum acc m x = .bin (if m then .sub else .add) acc x := by
+  cases x with
+  | bin op a b => cases op <;> first | rfl | (simp at h)
+  | _ => rfl
+
+/-- `acc - t[1:]` for a printed term `t` that starts with a minus is `acc + t` -/
+theorem peelSplice_num (d : Doc) : PyOK d = true → 40 ≤ level d → startsMinus d = true → ∀ acc,
+    (evD S (spliceSum acc true (peelLeft d))).num = (evD S acc).num + (evD S d).num := by
+  induction d with
+  | neg x _ =>
+      intro hp _ _ acc
+      simp only [ok_neg, Bool.and_eq_true, decide_eq_true_eq] at hp
+      simp only [peelLeft]
+      -- x is tighter than a sum, so it is attached as one operand
+      rw [spliceSum_tight acc x true (by omega)]; simp; ring
+  | bin op a b iha _ =>
+      intro hp hl hs acc
+      simp only [startsMinus] at hs
+      cases op
+      case add =>
+        simp only [ok_add, Bool.and_eq_true, decide_eq_true_eq] at hp
+        simp only [peelLeft, spliceSum, evD_add_num, iha hp.1.1.1 hp.1.2 hs]; ring
+      case sub =>
+        simp only [ok_sub, Bool.and_eq_true, decide_eq_true_eq] at hp
+        simp only [peelLeft, spliceSum, evD_sub_num, evD_add_num, iha hp.1.1.1 hp.1.2 hs]; ring
+      case mul =>
+        have := peelProd_num S (.bin .mul a b) hp (by simp) (by simpa [startsMinus] using hs)
+        simp only [peelLeft] at this ⊢
+        show (evD S (.bin .sub acc _)).num = _
+        rw [evD_sub_num, this]; ring
+      case div =>
+        have := peelProd_num S (.bin .div a b) hp (by simp) (by simpa [startsMinus] using hs)
+        simp only [peelLeft] at this ⊢
+        show (evD S (.bin .sub acc _)).num = _
+        rw [evD_sub_num, this]; ring
+      case pow =>
+        have := peelProd_num S (.bin .pow a b) hp (by simp) (by simpa [startsMinus] using hs)
+        simp only [peelLeft] at this ⊢
+        show (evD S (.bin .sub acc _)).num = _
+        rw [evD_sub_num, this]; ring
+  | _ => intro _ hl hs; first | (simp at hl; done) | (simp [startsMinus] at hs; done)
+
+theorem spliceAnd_bool (acc d : Doc) :
+    (evD S (spliceAnd acc d)).bool = ((evD S acc).bool && (evD S d).bool) ∧
+      (evD S (spliceAnd acc d)).num = b2k ((evD S acc).bool && (evD S d).bool) := by
+  induction d with
+  | and a b iha _ => simp only [spliceAnd, evD_and_bool, evD_and_num, iha.1, Bool.and_assoc, and_self]
+  | _ => simp [spliceAnd]
+
+theorem spliceOr_bool (acc d : Doc) :
+    (evD S (spliceOr acc d)).bool = ((evD S acc).bool || (evD S d).bool) ∧
+      (evD S (spliceOr acc d)).num = b2k ((evD S acc).bool || (evD S d).bool) := by
+  induction d with
+  | or a b iha _ => simp only [spliceOr, evD_or_bool, evD_or_num, iha.1, Bool.or_assoc, and_self]
+  | _ => simp [spliceOr]
+
 end C11
